@@ -23,14 +23,26 @@ Proof. intros chars H. pose proof (cost_ge_second chars H). unfold second in *. 
 
 (* ---- one call --------------------------------------------------------------------- *)
 
+Lemma rate_core_spec : forall w el chars,
+  fst (rate_core w el chars) = Z.max 0 (w + cost chars - el) /\
+  snd (rate_core w el chars) = (if threshold <? fst (rate_core w el chars) then cost chars else 0).
+Proof.
+  intros w el chars. unfold rate_core. cbn [fst snd].
+  destruct (w + (cost chars - el) <? 0) eqn:E; split; try reflexivity; lia.
+Qed.
+
 Lemma rate_spec : forall s now chars,
   let '(s', d) := rate s now chars in
-  wd s' = Z.max 0 (wd s + cost chars - (now - last s)) /\
-  last s' = last s /\
+  wd s' = Z.max 0 (wd s + cost chars - (now - Z.max (last s) (lastr s))) /\
+  last s' = last s /\ lastr s' = now /\
   d = (if threshold <? wd s' then cost chars else 0).
 Proof.
-  intros s now chars. unfold rate. cbn [wd last].
-  destruct (wd s + (cost chars - (now - last s)) <? 0) eqn:E; repeat split; lia.
+  intros s now chars. unfold rate.
+  set (since := if last s <? lastr s then lastr s else last s).
+  assert (Hs : since = Z.max (last s) (lastr s)) by (subst since; destruct (last s <? lastr s) eqn:E; lia).
+  pose proof (rate_core_spec (wd s) (now - since) chars) as [H1 H2].
+  destruct (rate_core (wd s) (now - since) chars) as [w' d]. cbn [fst snd wd last lastr] in *.
+  rewrite <- Hs. repeat split; assumption.
 Qed.
 
 (* C16_delay_is_cost: the delay is 0 or exactly the cost; it is the cost exactly when the
@@ -42,18 +54,18 @@ Lemma delay_is_cost : forall s now chars,
   (threshold < wd s' -> d = cost chars) /\
   (wd s' <= threshold -> d = 0) /\
   0 <= wd s' /\
-  wd s' = Z.max 0 (wd s + cost chars - (now - last s)) /\
-  last s' = last s.
+  wd s' = Z.max 0 (wd s + cost chars - (now - Z.max (last s) (lastr s))) /\
+  last s' = last s /\ lastr s' = now.
 Proof.
   intros s now chars. pose proof (rate_spec s now chars) as H.
-  destruct (rate s now chars) as [s' d]. destruct H as (Hw & Hl & Hd).
+  destruct (rate s now chars) as [s' d]. destruct H as (Hw & Hl & Hr & Hd).
   destruct (threshold <? wd s') eqn:E; repeat split; try lia; auto.
 Qed.
 
 (* both outcomes occur *)
 Example delay_is_cost_sat :
-  snd (rate (mkR 0 0) 0 30) = 0 /\
-  snd (rate (mkR (7 * second) 0) 0 30) = cost 30 /\ cost 30 = 1300000000.
+  snd (rate (mkR 0 0 0) 0 30) = 0 /\
+  snd (rate (mkR (7 * second) 0 0) 0 30) = cost 30 /\ cost 30 = 1300000000.
 Proof. vm_compute. auto. Qed.
 
 (* ---- call sequences --------------------------------------------------------------- *)
@@ -65,9 +77,7 @@ Lemma rate_el_spec : forall w c,
   fst (rate_el w c) = Z.max 0 (w + cost (snd c) - fst c) /\
   snd (rate_el w c) = (if threshold <? fst (rate_el w c) then cost (snd c) else 0).
 Proof.
-  intros w [e ch]. unfold rate_el. cbn [fst snd].
-  pose proof (rate_spec (mkR w 0) e ch) as H.
-  destruct (rate (mkR w 0) e ch) as [s d]. cbn [fst snd wd last] in *. lia.
+  intros w [e ch]. unfold rate_el. cbn [fst snd]. apply rate_core_spec.
 Qed.
 
 Lemma run_cons : forall w c cs,
@@ -199,12 +209,12 @@ Lemma run_sync_cons : forall s gap chars slack rest,
   let now := last s + gap in
   let r := rate s now chars in
   let w := now + snd r + slack in
-  (fst (run_sync (mkR (wd (fst r)) w) rest),
-   (now, snd r, w) :: snd (run_sync (mkR (wd (fst r)) w) rest)).
+  (fst (run_sync (mkR (wd (fst r)) w (lastr (fst r))) rest),
+   (now, snd r, w) :: snd (run_sync (mkR (wd (fst r)) w (lastr (fst r))) rest)).
 Proof.
   intros s gap chars slack rest. cbn [run_sync].
   destruct (rate s (last s + gap) chars) as [s1 d]. cbn [fst snd].
-  destruct (run_sync (mkR (wd s1) (last s + gap + d + slack)) rest) as [s2 out]. reflexivity.
+  destruct (run_sync (mkR (wd s1) (last s + gap + d + slack) (lastr s1)) rest) as [s2 out]. reflexivity.
 Qed.
 
 Lemma run_sync_app : forall a b s,
@@ -231,118 +241,129 @@ Proof.
     pose proof (cost_ge_second chars Hc). lia.
 Qed.
 
-(* the budget: charged minus real time elapsed never exceeds the allowance *)
-Lemma sync_budget : forall steps s,
-  0 <= wd s -> Forall step_ok steps ->
-  wd s + sum_cost3 steps - (last (fst (run_sync s steps)) - last s) <= Z.max threshold (wd s).
+(* the sender's own previous rate call never lies after the stamp of its previous event *)
+Definition sync_state (s : rstate) : Prop := 0 <= wd s /\ lastr s <= last s.
+
+(* one step of the synchronous run, with everything the later lemmas need *)
+Lemma sync_step : forall s gap chars slack,
+  sync_state s -> step_ok (gap, chars, slack) ->
+  let now := last s + gap in
+  let r := rate s now chars in
+  let s1 := mkR (wd (fst r)) (now + snd r + slack) (lastr (fst r)) in
+  sync_state s1 /\
+  wd s1 = Z.max 0 (wd s + cost chars - gap) /\
+  (snd r = 0 \/ snd r = cost chars) /\
+  (threshold < wd s1 -> snd r = cost chars) /\
+  (wd s1 <= threshold -> snd r = 0) /\
+  0 < cost chars.
 Proof.
-  induction steps as [|[[gap chars] slack] rest IH]; intros s Hw HF.
-  - cbn. lia.
-  - inversion HF as [|? ? Hx Hr]; subst. destruct Hx as (Hg & Hc & Hs).
-    rewrite run_sync_cons. cbv zeta. cbn [fst].
-    pose proof (delay_is_cost s (last s + gap) chars) as D.
-    destruct (rate s (last s + gap) chars) as [s1 d]. cbn [fst snd].
-    destruct D as (D1 & D2 & D3 & D4 & D5 & D6).
-    set (s1' := mkR (wd s1) (last s + gap + d + slack)).
-    specialize (IH s1' ltac:(cbn; lia) Hr). cbn [wd last s1'] in IH. fold s1' in IH |- *.
-    unfold sum_cost3 in *. cbn [fold_right fst snd].
-    pose proof (cost_pos chars Hc) as Hcp.
-    destruct (Z_lt_le_dec threshold (wd s1)) as [Hgt|Hle].
-    + specialize (D2 Hgt). lia.
-    + specialize (D3 Hle). lia.
+  intros s gap chars slack [Hw Hl] (Hg & Hc & Hs) now r s1.
+  pose proof (delay_is_cost s now chars) as D. subst r s1.
+  destruct (rate s now chars) as [s' d]. cbn [fst snd wd last lastr].
+  destruct D as (D1 & D2 & D3 & D4 & D5 & D6 & D7).
+  pose proof (cost_pos chars Hc) as Hcp. subst now.
+  unfold sync_state. cbn [wd last lastr].
+  repeat split; auto; try lia.
 Qed.
 
-(* stamps never run backwards and every event is stamped no earlier than Send + delay *)
-Lemma sync_last_mono : forall steps s,
-  Forall step_ok steps -> 0 <= wd s -> last s <= last (fst (run_sync s steps)) /\ 0 <= wd (fst (run_sync s steps)).
+(* the budget: charged minus real time elapsed never exceeds the allowance *)
+Lemma sync_budget : forall steps s,
+  sync_state s -> Forall step_ok steps ->
+  wd s + sum_cost3 steps - (last (fst (run_sync s steps)) - last s) <= Z.max threshold (wd s).
 Proof.
-  induction steps as [|[[gap chars] slack] rest IH]; intros s HF Hw.
-  - cbn. lia.
-  - inversion HF as [|? ? Hx Hr]; subst. destruct Hx as (Hg & Hc & Hs).
+  induction steps as [|[[gap chars] slack] rest IH]; intros s Hs HF.
+  - cbn. destruct Hs. lia.
+  - inversion HF as [|? ? Hx Hr]; subst.
     rewrite run_sync_cons. cbv zeta. cbn [fst].
-    pose proof (delay_is_cost s (last s + gap) chars) as D.
-    destruct (rate s (last s + gap) chars) as [s1 d]. cbn [fst snd].
-    destruct D as (D1 & D2 & D3 & D4 & D5 & D6).
-    pose proof (cost_pos chars Hc) as Hcp.
-    specialize (IH (mkR (wd s1) (last s + gap + d + slack)) Hr ltac:(cbn; lia)). cbn [last wd] in IH.
-    lia.
+    pose proof (sync_step s gap chars slack Hs Hx) as S. cbv zeta in S.
+    destruct S as (S1 & S2 & S3 & S4 & S5 & S6).
+    specialize (IH _ S1 Hr). cbn [wd last] in IH, S2, S4, S5.
+    destruct Hx as (Hg & Hc & Hk). destruct Hs as [Hw Hl].
+    unfold sum_cost3 in *. cbn [fold_right fst snd].
+    set (d := snd (rate s (last s + gap) chars)) in *.
+    set (w1 := wd (fst (rate s (last s + gap) chars))) in *.
+    destruct (Z_lt_le_dec threshold w1) as [Hgt|Hle].
+    + specialize (S4 Hgt). lia.
+    + specialize (S5 Hle). lia.
 Qed.
 
 (* accumulator from below: everything charged minus the gaps (the only time forgiven) *)
 Lemma sync_lower : forall steps s,
-  0 <= wd s -> Forall step_ok steps ->
+  sync_state s -> Forall step_ok steps ->
+  sync_state (fst (run_sync s steps)) /\
   wd s + sum_cost3 steps - sum_gap3 steps <= wd (fst (run_sync s steps)) /\
   sum_gap3 steps <= last (fst (run_sync s steps)) - last s.
 Proof.
-  induction steps as [|[[gap chars] slack] rest IH]; intros s Hw HF.
-  - cbn. lia.
-  - inversion HF as [|? ? Hx Hr]; subst. destruct Hx as (Hg & Hc & Hs).
+  induction steps as [|[[gap chars] slack] rest IH]; intros s Hs HF.
+  - cbn. split; [exact Hs|lia].
+  - inversion HF as [|? ? Hx Hr]; subst.
     rewrite run_sync_cons. cbv zeta. cbn [fst].
-    pose proof (delay_is_cost s (last s + gap) chars) as D.
-    destruct (rate s (last s + gap) chars) as [s1 d]. cbn [fst snd].
-    destruct D as (D1 & D2 & D3 & D4 & D5 & D6).
-    pose proof (cost_pos chars Hc) as Hcp.
-    specialize (IH (mkR (wd s1) (last s + gap + d + slack)) ltac:(cbn; lia) Hr). cbn [last wd] in IH.
-    unfold sum_cost3, sum_gap3 in *. cbn [fold_right fst snd]. lia.
+    pose proof (sync_step s gap chars slack Hs Hx) as S. cbv zeta in S.
+    destruct S as (S1 & S2 & S3 & S4 & S5 & S6).
+    specialize (IH _ S1 Hr). cbn [wd last] in IH, S2.
+    destruct Hx as (Hg & Hc & Hk). destruct IH as (I1 & I2 & I3).
+    split; [exact I1|].
+    unfold sum_cost3, sum_gap3 in *. cbn [fold_right fst snd].
+    set (d := snd (rate s (last s + gap) chars)) in *. lia.
 Qed.
 
 (* C16_wallclock, first half: for one sender whose events are each stamped before the next
    Send, after ANY number of events the total cost written fits in the 8 s allowance plus
    the real time elapsed; with cost >= 1 s: at most 8 + t/1s lines by time t. *)
 Lemma wallclock_sync : forall steps s,
-  0 <= wd s <= threshold -> Forall step_ok steps ->
+  sync_state s -> wd s <= threshold -> Forall step_ok steps ->
   let t := last (fst (run_sync s steps)) - last s in
   wd s + sum_cost3 steps <= threshold + t /\
   Z.of_nat (length steps) * second <= threshold + t.
 Proof.
-  intros steps s Hw HF t.
-  pose proof (sync_budget steps s ltac:(lia) HF) as B.
-  pose proof (sum_cost3_ge steps HF) as G. subst t. lia.
+  intros steps s Hs Hw HF t.
+  pose proof (sync_budget steps s Hs HF) as B.
+  pose proof (sum_cost3_ge steps HF) as G. destruct Hs. subst t. lia.
 Qed.
 
 (* the same for every prefix: the events stamped by any instant are a prefix of the run *)
 Lemma wallclock_sync_prefix : forall a b s,
-  0 <= wd s <= threshold -> Forall step_ok (a ++ b) ->
+  sync_state s -> wd s <= threshold -> Forall step_ok (a ++ b) ->
   snd (run_sync s a) = firstn (length a) (snd (run_sync s (a ++ b))) /\
   Z.of_nat (length a) * second <= threshold + (last (fst (run_sync s a)) - last s).
 Proof.
-  intros a b s Hw HF. apply Forall_app in HF. destruct HF as [Ha Hb]. split.
+  intros a b s Hs Hw HF. apply Forall_app in HF. destruct HF as [Ha Hb]. split.
   - rewrite run_sync_app. cbn [snd].
     assert (L : length (snd (run_sync s a)) = length a).
     { clear. revert s. induction a as [|[[g c] k] a IH]; intros s; [reflexivity|].
       rewrite run_sync_cons. cbv zeta. cbn [snd length]. now rewrite IH. }
     rewrite <- L. rewrite firstn_app, Nat.sub_diag, firstn_all. cbn [firstn]. now rewrite app_nil_r.
-  - apply (wallclock_sync a s Hw Ha).
+  - apply (wallclock_sync a s Hs Hw Ha).
 Qed.
 
-(* C16_wallclock, second half (the hold clause under the same hypothesis): an event sent
-   when everything charged exceeds the allowance plus ALL the real time elapsed since the
-   start is held for exactly its cost, and stamped no earlier than that after its Send. *)
+(* C16_wallclock, second half (the hold clause for this sender): an event sent when
+   everything charged exceeds the allowance plus ALL the real time elapsed since the start
+   is held for exactly its cost, and stamped no earlier than that after its Send. *)
 Lemma hold_sync : forall a s gap chars slack,
-  0 <= wd s -> Forall step_ok (a ++ [(gap, chars, slack)]) ->
+  sync_state s -> Forall step_ok (a ++ [(gap, chars, slack)]) ->
   let s1 := fst (run_sync s a) in
   let now := last s1 + gap in
   threshold + (now - last s) < wd s + sum_cost3 (a ++ [(gap, chars, slack)]) ->
   snd (run_sync s (a ++ [(gap, chars, slack)])) =
   snd (run_sync s a) ++ [(now, cost chars, now + cost chars + slack)].
 Proof.
-  intros a s gap chars slack Hw HF s1 now Hx.
-  apply Forall_app in HF. destruct HF as [Ha Hx1]. inversion Hx1 as [|? ? Hok _]; subst. cbn in Hok. destruct Hok as (Hg & Hc & Hs).
+  intros a s gap chars slack Hs HF s1 now Hx.
+  apply Forall_app in HF. destruct HF as [Ha Hx1]. inversion Hx1 as [|? ? Hok _]; subst.
   rewrite run_sync_app. cbn [snd]. f_equal. fold s1.
   rewrite run_sync_cons. cbv zeta. cbn [snd run_sync]. fold now.
-  pose proof (sync_lower a s Hw Ha) as [L1 L2]. fold s1 in L1, L2.
-  pose proof (delay_is_cost s1 now chars) as D.
-  destruct (rate s1 now chars) as [s2 d]. cbn [fst snd].
-  destruct D as (D1 & D2 & D3 & D4 & D5 & D6).
+  pose proof (sync_lower a s Hs Ha) as (L0 & L1 & L2). fold s1 in L0, L1, L2.
+  pose proof (sync_step s1 gap chars slack L0 Hok) as S. cbv zeta in S. fold now in S.
+  destruct S as (S1 & S2 & S3 & S4 & S5 & S6). cbn [wd] in S2, S4.
   rewrite sum_cost3_app in Hx. unfold sum_cost3 at 2 in Hx. cbn [fold_right fst snd] in Hx.
-  assert (Hd : d = cost chars) by (apply D2; subst now; lia).
+  destruct Hok as (Hg & Hc & Hk).
+  assert (Hd : snd (rate s1 now chars) = cost chars) by (apply S4; subst now; lia).
   now rewrite Hd.
 Qed.
 
 (* satisfiable: a burst of twelve 30-byte events from a fresh, idle connection: seven pass,
    the rest are held 1.3 s each *)
 Example sync_sat :
-  map (fun x => snd (fst x)) (snd (run_sync (mkR 0 0) ((cost 30, 30, 0) :: repeat (0, 30, 0) 11))) =
+  map (fun x => snd (fst x)) (snd (run_sync (mkR 0 0 0) ((cost 30, 30, 0) :: repeat (0, 30, 0) 11))) =
   repeat 0 7 ++ repeat (cost 30) 5.
 Proof. vm_compute. reflexivity. Qed.
 
@@ -382,7 +403,7 @@ Proof.
     + cbn [step fst snd]. specialize (IH (mkS (rs s) (tx s ++ [e]) (wire s)) Hr). cbn [rs] in IH. exact IH.
     + cbn [step]. destruct (tx s) as [|e q].
       * cbn [fst snd]. apply IH. exact Hr.
-      * cbn [fst snd]. specialize (IH (mkS (mkR (wd (rs s)) now) q ((now, e) :: wire s)) Hr).
+      * cbn [fst snd]. specialize (IH (mkS (mkR (wd (rs s)) now (lastr (rs s))) q ((now, e) :: wire s)) Hr).
         cbn [rs wd] in IH. exact IH.
 Qed.
 
@@ -414,7 +435,7 @@ Proof.
   induction pieces as [|len rest IH]; intros s t g id Htx.
   - cbn. rewrite app_nil_r. auto.
   - cbn [send_flood step]. rewrite Htx. cbn [app tx rs wire wd]. rewrite Z.add_0_r.
-    specialize (IH (mkS (mkR (wd (rs s)) t) [] ((t, mkE g id len) :: wire s)) t g (N.succ id) eq_refl).
+    specialize (IH (mkS (mkR (wd (rs s)) t (lastr (rs s))) [] ((t, mkE g id len) :: wire s)) t g (N.succ id) eq_refl).
     destruct IH as (I2 & I3 & I4 & I5). cbn [rs wd] in I3.
     repeat split; auto.
     rewrite I5. rewrite wire_events_cons. cbn [pieces_events]. rewrite <- app_assoc. cbn [app].
@@ -423,8 +444,8 @@ Qed.
 
 (* the same Send with flood protection on, from an exhausted allowance: held *)
 Example send_flood_on_sat :
-  snd (send_flood false (sys0 (mkR (9 * second) 0)) 0 0 0 [30; 30]) = 2 * cost 30 /\
-  snd (send_flood true (sys0 (mkR (9 * second) 0)) 0 0 0 [30; 30]) = 0.
+  snd (send_flood false (sys0 (mkR (9 * second) 0 0)) 0 0 0 [30; 30]) = 2 * cost 30 /\
+  snd (send_flood true (sys0 (mkR (9 * second) 0 0)) 0 0 0 [30; 30]) = 0.
 Proof. vm_compute. auto. Qed.
 
 (* C16_order: the queue is FIFO.  Whatever the schedule, the events written followed by the
@@ -469,76 +490,134 @@ Qed.
 Example order_sat :
   let a := mkE 0 0 30 in let b := mkE 1 0 40 in let c := mkE 0 1 50 in
   let acts := [ARate 0 a; ARate 0 b; AEnq b; AEnq a; ADeliver 1; ARate 1 c; ADeliver 2; AEnq c; ADeliver 3] in
-  tx (fst (exec (sys0 (mkR 0 0)) acts)) = [] /\
-  events_of 0 (wire_events (fst (exec (sys0 (mkR 0 0)) acts))) = [a; c].
+  tx (fst (exec (sys0 (mkR 0 0 0)) acts)) = [] /\
+  events_of 0 (wire_events (fst (exec (sys0 (mkR 0 0 0)) acts))) = [a; c].
 Proof. vm_compute. auto. Qed.
 
-(* ---- the hold clause is false when lastWrite is stale ------------------------------- *)
-(* sendLoop stamps lastWrite asynchronously.  A sender that issues its Sends back to back
-   reaches the next rate call before sendLoop has run (conn.go: c.tx is buffered, 25), so
-   each call forgives the SAME idle period again.  After an idle period of at least one
-   event's cost, any number of such events pass unheld at one instant. *)
+
+(* ---- the hold clause, for every schedule -------------------------------------------- *)
+(* Any number of senders, any interleaving of rate calls, enqueues and sendLoop deliveries,
+   any staleness of lastWrite: the only assumption on a schedule is that its clock
+   readings do not run backwards. *)
+Definition act_time (a : action) : option Z :=
+  match a with ARate t _ => Some t | ADeliver t => Some t | AEnq _ => None end.
+
+(* clock readings in schedule order never decrease, starting from t *)
+Fixpoint monotone (t : Z) (acts : list action) : Prop :=
+  match acts with
+  | [] => True
+  | a :: rest => match act_time a with
+                 | Some u => t <= u /\ monotone u rest
+                 | None => monotone t rest
+                 end
+  end.
+
+Definition charged (acts : list action) : Z :=
+  fold_right (fun a acc => match a with ARate _ x => cost (ev_len x) + acc | _ => acc end) 0 acts.
+
+Definition lens_ok (acts : list action) : Prop :=
+  Forall (fun a => match a with ARate _ x => 0 <= ev_len x | _ => True end) acts.
+
+Lemma charged_app : forall a b, charged (a ++ b) = charged a + charged b.
+Proof.
+  induction a as [|x a IH]; intros b; [reflexivity|].
+  cbn [app charged fold_right]. fold (charged (a ++ b)) (charged a). rewrite IH. destruct x; lia.
+Qed.
+
+Lemma monotone_app : forall a b t, monotone t (a ++ b) -> monotone t a.
+Proof.
+  induction a as [|x a IH]; intros b t H; [exact I|].
+  cbn [app monotone] in *. destruct (act_time x).
+  - destruct H as [H1 H2]. split; [exact H1|]. eapply IH. exact H2.
+  - eapply IH. exact H.
+Qed.
+
+(* last clock reading of a monotone schedule is at most any later reading *)
+Lemma monotone_last : forall a t now e, monotone t (a ++ [ARate now e]) -> t <= now.
+Proof.
+  induction a as [|x a IH]; intros t now e H.
+  - cbn in H. lia.
+  - cbn [app monotone] in H. destruct (act_time x).
+    + destruct H as [H1 H2]. specialize (IH _ _ _ H2). lia.
+    + eapply IH. exact H.
+Qed.
+
+(* invariant: with since = max(lastWrite, lastRate), the accumulator is at least everything
+   charged minus the real time from the start T0 to `since`; `since` never exceeds the
+   clock.  The schedule is followed by one more rate call at `now` (which bounds the clock). *)
+Lemma hold_inv : forall now e T0 acts s t base,
+  monotone t (acts ++ [ARate now e]) -> lens_ok acts ->
+  0 <= wd (rs s) -> Z.max (last (rs s)) (lastr (rs s)) <= t -> T0 <= Z.max (last (rs s)) (lastr (rs s)) ->
+  base - (Z.max (last (rs s)) (lastr (rs s)) - T0) <= wd (rs s) ->
+  let s' := fst (exec s acts) in
+  base + charged acts - (Z.max (last (rs s')) (lastr (rs s')) - T0) <= wd (rs s') /\
+  Z.max (last (rs s')) (lastr (rs s')) <= now /\ 0 <= wd (rs s').
+Proof.
+  intros now e T0. induction acts as [|a acts IH]; intros s t base Hm Hl Hw Ht HT Hb.
+  - cbn in *. lia.
+  - inversion Hl as [|? ? Ha Hl']; subst.
+    destruct a as [u x|x|u]; cbn [app monotone act_time] in Hm; cbn [exec step].
+    + destruct Hm as [H1 Hm].
+      pose proof (rate_spec (rs s) u (ev_len x)) as R.
+      destruct (rate (rs s) u (ev_len x)) as [r d]. destruct R as (R1 & R2 & R3 & R4).
+      destruct (exec (mkS r (tx s) (wire s)) acts) as [s2 ds] eqn:E. cbn [fst].
+      pose proof (cost_pos (ev_len x) Ha) as Hc.
+      specialize (IH (mkS r (tx s) (wire s)) u (base + cost (ev_len x)) Hm Hl').
+      cbn [rs] in IH. rewrite E in IH. cbn [fst] in IH.
+      cbn [charged fold_right]. fold (charged acts).
+      destruct IH as (I1 & I2 & I3); try lia.
+    + destruct (exec (mkS (rs s) (tx s ++ [x]) (wire s)) acts) as [s2 ds] eqn:E. cbn [fst].
+      specialize (IH (mkS (rs s) (tx s ++ [x]) (wire s)) t base Hm Hl').
+      cbn [rs] in IH. rewrite E in IH. cbn [fst] in IH.
+      cbn [charged fold_right]. fold (charged acts). apply IH; assumption.
+    + destruct Hm as [H1 Hm]. destruct (tx s) as [|y q].
+      * destruct (exec s acts) as [s2 ds] eqn:E. cbn [fst].
+        specialize (IH s u base Hm Hl'). rewrite E in IH. cbn [fst] in IH.
+        cbn [charged fold_right]. fold (charged acts). apply IH; try assumption; lia.
+      * destruct (exec (mkS (mkR (wd (rs s)) u (lastr (rs s))) q ((u, y) :: wire s)) acts) as [s2 ds] eqn:E.
+        cbn [fst].
+        specialize (IH (mkS (mkR (wd (rs s)) u (lastr (rs s))) q ((u, y) :: wire s)) u base Hm Hl').
+        cbn [rs wd last lastr] in IH. rewrite E in IH. cbn [fst] in IH.
+        cbn [charged fold_right]. fold (charged acts). apply IH; try assumption; lia.
+Qed.
+
+(* The hold clause, full strength, for the repaired limiter.  r0 is the state at the start
+   (T0 = the later of lastWrite and lastRate then). *)
+Theorem hold_all_schedules : forall acts now e r0,
+  0 <= wd r0 -> 0 <= ev_len e -> lens_ok acts ->
+  monotone (Z.max (last r0) (lastr r0)) (acts ++ [ARate now e]) ->
+  threshold + (now - Z.max (last r0) (lastr r0)) < wd r0 + charged (acts ++ [ARate now e]) ->
+  snd (step (fst (exec (sys0 r0) acts)) (ARate now e)) = Some (cost (ev_len e)).
+Proof.
+  intros acts now e r0 Hw He Hl Hm Hx.
+  pose proof (hold_inv now e (Z.max (last r0) (lastr r0)) acts (sys0 r0)
+                (Z.max (last r0) (lastr r0)) (wd r0) Hm Hl) as G.
+  cbn [sys0 rs] in G. specialize (G Hw ltac:(lia) ltac:(lia) ltac:(lia)).
+  cbv zeta in G. destruct G as (G1 & G2 & G3).
+  set (s' := fst (exec (sys0 r0) acts)) in *.
+  cbn [step]. pose proof (rate_spec (rs s') now (ev_len e)) as R.
+  destruct (rate (rs s') now (ev_len e)) as [r d]. destruct R as (R1 & R2 & R3 & R4). cbn [snd].
+  rewrite charged_app in Hx. cbn [charged fold_right] in Hx.
+  assert (Hgt : threshold < wd r) by lia.
+  rewrite R4. destruct (threshold <? wd r) eqn:T; [reflexivity|lia].
+Qed.
+
+(* the hypotheses are satisfiable — by the very burst on which the arithmetic before the
+   repair failed (Proofs/RateBeforeRepairProofs.v): ten 30-byte events at one instant 1.3 s
+   after the last write, none delivered in between; the first seven pass, the rest are held *)
 Definition stale_burst (idle len : Z) (ids : list N) : list action :=
   concat (map (fun i => send_piece false idle (mkE 0 i len)) ids).
 
-Lemma rate_forgiven : forall idle len, cost len <= idle -> rate (mkR 0 0) idle len = (mkR 0 0, 0).
+Example hold_all_schedules_sat :
+  let acts := stale_burst (cost 30) 30 (map N.of_nat (seq 0 9)) in
+  monotone 0 (acts ++ [ARate (cost 30) (mkE 0 9 30)]) /\ lens_ok acts /\
+  threshold + (cost 30 - 0) < 0 + charged (acts ++ [ARate (cost 30) (mkE 0 9 30)]) /\
+  snd (exec (sys0 (mkR 0 0 0)) (acts ++ [ARate (cost 30) (mkE 0 9 30)])) = repeat 0 7 ++ repeat (cost 30) 3.
 Proof.
-  intros idle len Hc. pose proof (delay_is_cost (mkR 0 0) idle len) as D.
-  destruct (rate (mkR 0 0) idle len) as [[w l] d]. cbn [wd last] in D.
-  destruct D as (D1 & D2 & D3 & D4 & D5 & D6).
-  assert (Hw : w = 0) by lia. subst l. rewrite D3 by (unfold threshold, second; lia). rewrite Hw. reflexivity.
-Qed.
-
-Lemma stale_one : forall idle len i s,
-  cost len <= idle -> rs s = mkR 0 0 ->
-  exec s (send_piece false idle (mkE 0 i len)) = (mkS (mkR 0 0) (tx s ++ [mkE 0 i len]) (wire s), [0]).
-Proof.
-  intros idle len i s Hc Hr. unfold send_piece. cbn [exec step ev_len]. rewrite Hr.
-  rewrite rate_forgiven by exact Hc. cbn [rs tx wire]. reflexivity.
-Qed.
-
-Lemma stale_burst_unheld : forall idle len ids s,
-  cost len <= idle -> rs s = mkR 0 0 ->
-  snd (exec s (stale_burst idle len ids)) = repeat 0 (length ids) /\
-  rs (fst (exec s (stale_burst idle len ids))) = mkR 0 0 /\
-  tx (fst (exec s (stale_burst idle len ids))) = tx s ++ map (fun i => mkE 0 i len) ids /\
-  wire (fst (exec s (stale_burst idle len ids))) = wire s.
-Proof.
-  intros idle len ids. induction ids as [|i ids IH]; intros s Hc Hr.
-  - cbn. rewrite app_nil_r. auto.
-  - unfold stale_burst in *. cbn [map concat]. rewrite exec_app.
-    rewrite (stale_one idle len i s Hc Hr). cbn [fst snd].
-    specialize (IH (mkS (mkR 0 0) (tx s ++ [mkE 0 i len]) (wire s)) Hc eq_refl).
-    destruct IH as (I1 & I2 & I3 & I4). cbn [tx wire] in I3, I4.
-    repeat split; auto.
-    + cbn [length repeat app]. now rewrite I1.
-    + rewrite I3. rewrite <- app_assoc. reflexivity.
-Qed.
-
-(* The full-strength hold clause, stated on the machine: in every schedule, a rate call
-   made when the cost charged so far exceeds the allowance plus all real time elapsed
-   since the last write returns the event's cost.  It is FALSE of the faithful model:
-   ten 30-byte events (13 s of cost) sent at one instant 1.3 s after the last write are all
-   returned delay 0 and queued (allowance plus elapsed time: 9.3 s). *)
-Definition hold_clause : Prop :=
-  forall (acts : list action) (now : Z) (e : event) (r0 : rstate),
-    0 <= wd r0 -> 0 <= ev_len e ->
-    Forall (fun a => match a with ARate t x => last r0 <= t <= now /\ 0 <= ev_len x | ADeliver t => last r0 <= t <= now | AEnq _ => True end) acts ->
-    threshold + (now - last r0) <
-      wd r0 + fold_right (fun a acc => match a with ARate _ x => cost (ev_len x) + acc | _ => acc end) 0 (acts ++ [ARate now e]) ->
-    snd (step (fst (exec (sys0 r0) acts)) (ARate now e)) = Some (cost (ev_len e)).
-
-Lemma hold_clause_refuted : ~ hold_clause.
-Proof.
-  intros H.
-  specialize (H (stale_burst (cost 30) 30 (map N.of_nat (seq 0 9))) (cost 30) (mkE 0 9 30) (mkR 0 0)).
-  assert (X : snd (step (fst (exec (sys0 (mkR 0 0)) (stale_burst (cost 30) 30 (map N.of_nat (seq 0 9))))) (ARate (cost 30) (mkE 0 9 30))) = Some 0)
-    by (vm_compute; reflexivity).
-  rewrite H in X.
-  - vm_compute in X. discriminate X.
-  - cbn. lia.
-  - cbn. lia.
+  cbv zeta. split; [|split; [|split]].
+  - vm_compute. repeat split; intro; discriminate.
   - apply Forall_forall. intros a Ha. vm_compute in Ha.
-    repeat (destruct Ha as [Ha|Ha]; [subst a; vm_compute; try (repeat split; intro; discriminate); exact I|]). destruct Ha.
+    repeat (destruct Ha as [Ha|Ha]; [subst a; vm_compute; try (intro; discriminate); exact I|]). destruct Ha.
+  - vm_compute. reflexivity.
   - vm_compute. reflexivity.
 Qed.
